@@ -24,8 +24,13 @@ _PROFILES = None
 def build_cases(tier, seed):
     global _PROFILES
     _PROFILES = common.rank_profiles(tier)
+    if tier == "quick":
+        # a slice of four-candidate profiles (two candidates can reach quota in one round and feed each other)
+        c4 = fam.cands(4)
+        pb = fam.perm_family(4) + fam.bullet_family(4)
+        _PROFILES += [("int", c) for c in fam.prof_list(pb, 2, (1, 2), c4)[::6]]
     meta = {
-        "family": common.family_text(tier)
+        "family": common.family_text(tier) + (" + every 6th of Prof(Perm(4)+Bullet(4),2,{1,2})" if tier == "quick" else "")
         + " x {STV fractional, STV random transfer (integer weights), SequentialRCV, IRV}"
         " x m in 1..n x quota in {droop,hare} x simultaneous in {T,F} x tiebreak in"
         " {None,random,borda,first_place} x all paths of the scripted RNG",
